@@ -125,6 +125,9 @@ func main() {
 				rules = f
 			}
 			if len(rules) == 0 {
+				if *prop == "all" {
+					continue
+				}
 				undecided("no rules registered for %s", pr)
 			}
 			pstart := time.Now()
